@@ -193,7 +193,7 @@ def run_seq(rc, ops):
     finally:
         seams.end_run()
     for i, t in sorted(taps.items(), key=lambda kv: str(kv[0])):
-        got = [(r.msg.get("nid"), r.msg) for r in t.records if r.msg.get("message_type") != REPORT]
+        got = [(r.msg.get("nid"), r.msg) for r in t.records if r.msg.get("nid") is not None]
         want = expect[i]
         gn = [n for n, _m in got]
         wn = [n for n, _g in want]
@@ -260,16 +260,42 @@ def run_threads(rc, cfg):
     add_done = {}
     per_thread = {}
 
+    in_call = {}
+    gstate = {}
+
     def logger(name, nids):
         per_thread[name] = nids
 
         def fn():
             for n in nids:
                 started[n] = s.stamp()
+                in_call[name] = n
                 e.log_message(message_type="c12", nid=n)
+                in_call[name] = None
                 returned[n] = s.stamp()
                 s.yield_point("between-logs")
         return fn
+
+    def gthread():
+        from esim.sched import BLOCKED
+        for _ in range(cfg["g_delay"]):
+            s.force_yield("g-wait")
+        for _ in range(30):
+            parked = [in_call[a.name] for a in s.actors if a.name in in_call and in_call[a.name] is not None
+                      and a.state == BLOCKED]
+            if parked:
+                break
+            s.force_yield("g-wait-for-parked")
+        gstate["parked"] = list(parked)
+        if parked:
+            rc.probe("global_field_set_while_a_logger_is_parked_in_the_buffer")
+        gstate["start"] = s.stamp()
+        e.add_global_fields(c12g=1)
+        # (only those still parked now: a logger that got going again while the field was being set races with it)
+        still = [in_call[a.name] for a in s.actors if a.name in in_call and in_call[a.name] is not None
+                 and a.state == BLOCKED]
+        gstate["parked"] = [n for n in gstate["parked"] if n in still]
+        gstate["done"] = s.stamp()
 
     def adder():
         for _ in range(cfg["adder_delay"]):
@@ -298,6 +324,8 @@ def run_threads(rc, cfg):
             nid += cfg["per_logger"]
             actors.append(s.spawn("L%d" % i, logger("L%d" % i, nids)))
         actors.append(s.spawn("adder", adder))
+        if cfg.get("globals_thread"):
+            actors.append(s.spawn("G", gthread))
         for a in actors:
             s.yield_point("join")
             s.join(a)
@@ -341,6 +369,21 @@ def run_threads(rc, cfg):
             raise Violation(("registration_lost", {"which": "removed"}), "the removed destination still received a message")
         for t in taps + [phase2["late"]]:
             t.records[:] = [r for r in t.records if r.msg.get("nid") != mk]
+    if gstate.get("done") is not None:
+        # every delivered message carries the global fields set before its delivery: certainly those whose
+        # logging call began after the field was set, and those that were parked in the start-up buffer when
+        # it was set (they are delivered afterwards); a call in progress elsewhere at that moment is concurrent
+        for t in taps:
+            for r in t.records:
+                n = r.msg.get("nid")
+                if n is None or n not in started or r.seq < gstate["done"]:
+                    continue
+                if (started[n] > gstate["done"] or n in gstate["parked"]) and r.msg.get("c12g") != 1:
+                    raise Violation(("global_fields", {"world": "threads"}),
+                                    "message nid=%s was delivered to %s at %d without the global field set at "
+                                    "%d..%d (%s)" % (n, t.name, r.seq, gstate["start"], gstate["done"],
+                                                     "it was parked in the start-up buffer then" if n in gstate["parked"]
+                                                     else "its logging call began at %d" % started[n]))
     if early:
         t = early["removed"]
         # (a message that was already on its way through the destinations when the removal happened is
@@ -409,6 +452,10 @@ def draw_cfg(st):
         cfg["flaky_first"] = [st.choose(3, "ff-from"), 1 + st.choose(3, "ff-len")] if st.choose(3, "flaky_first") == 2 else None
         # the adding thread removes one of the first-call destinations again as soon as add_destinations returns
         cfg["early_remove"] = st.choose(4, "early_remove") == 3
+        # a thread that sets a global field while the hand-over is going on (preferably while a logger is
+        # parked in the start-up buffer)
+        cfg["globals_thread"] = st.choose(3, "globals_thread") == 2
+        cfg["g_delay"] = st.choose(6, "g_delay")
     return cfg
 
 
